@@ -241,6 +241,11 @@ func runProgram(p *Program) string { //nolint:cyclop,gocognit
 					rig.Chain.BindLocalStream(localInfos[1], sinks[1])
 					rig.Chain.BindRemoteStream(remoteInfos[1], srcs[1])
 				}
+				if p.UnbindLive && k%4 == 2 {
+					// the first stream is bound again while it carries traffic, without an Unbind (a renegotiation): writers keep the
+					// writer of the earlier Bind, feedback about the stream keeps arriving
+					rig.Chain.BindLocalStream(localInfos[0], sinks[0])
+				}
 				if p.CloseEarly && k == 3 {
 					closeChain() // Close racing with traffic
 				}
